@@ -76,7 +76,7 @@ class Universe:
     def __init__(self, root):
         self.engine = sa.create_engine("sqlite://", connect_args={"autocommit": False}, poolclass=StaticPool)
 
-        Base.metadata.create_all(self.engine)
+        Base.metadata.create_all(self.engine, checkfirst=False)
         self.s = Session(self.engine)
         self.objs = {}
         if root == "seeded":
@@ -360,18 +360,44 @@ def probe(u, obj, what):
             return (obj.id, obj.name) if isp else (obj.id, obj.v)
         raise AssertionError(what)
     except sa.exc.SQLAlchemyError as e:
-        try:
-            s.rollback()
-        except Exception:  # noqa
-            pass
         return "!" + type(e).__name__
 
 
-def reattach(u, obj):
-    """the common procedure of both universes: empty the session, add the graph root back"""
-    u.s.expunge_all()
+def graph(obj):
+    """instances reachable from obj through loaded relationship attributes and attribute history"""
+    seen, order = set(), [obj]
+    seen.add(id(obj))
+    i = 0
+    while i < len(order):
+        x = order[i]
+        i += 1
+        st = inspect(x)
+        vals = [st.dict[r.key] for r in st.mapper.relationships if r.key in st.dict]
+        vals += list(st.committed_state.values())  # the attribute history is pickled too (removed members live there)
+        for v in vals:
+            for y in (v if isinstance(v, (list, set, tuple)) or hasattr(v, "_sa_adapter") else [v]):
+                if y is not None and hasattr(y, "_sa_instance_state") and id(y) not in seen:
+                    seen.add(id(y))
+                    order.append(y)
+    return order
+
+
+def attach_original(u, obj):
+    """baseline universe: the original stays where it is (session.add() is still called, see below)"""
     try:
-        u.s.add(obj)
+        u.s.add(obj)  # also for an attached one: add() runs the save-update cascade exactly as it does for the copy
+        return "ok"
+    except sa.exc.SQLAlchemyError as e:
+        return "!" + type(e).__name__
+
+
+def swap_in_copy(u, orig, copy):
+    """other universe: the original graph leaves the session, the unpickled copy takes its place"""
+    try:
+        for x in graph(orig):
+            if x in u.s:
+                u.s.expunge(x)
+        u.s.add(copy)
         return "ok"
     except sa.exc.SQLAlchemyError as e:
         return "!" + type(e).__name__
